@@ -2,5 +2,9 @@ package main
 
 // One blank import per property package (each registers itself in init()).
 import (
+	_ "verifh/props/c01"
+	_ "verifh/props/c05"
+	_ "verifh/props/c06"
+	_ "verifh/props/c07"
 	_ "verifh/props/c19"
 )
